@@ -52,7 +52,21 @@ Inductive mode :=
           back to their sentinel by the harness in between, unmarshaler call counters zeroed); the handle
           refresh tokens refer to svc2 *)
 
+(* several struct values in one process *)
+Inductive mmode :=
+| MSNew (allow : bool) (extra : list name)
+       (* NewStore{Structs: [{&v1, p1}; {&v2, p2}; ...], Secrets: extra} *)
+| MSApp (allow : bool) (declared : list name) (order : list nat).
+       (* store over `declared`; ParseFields(&v1, p1), ParseFields(&v2, p2), ... in THAT order; then
+          Apply of the parsed values in the order `order` (a permutation of the indices) *)
+
+(* ec / ne: NewStore's error class and joined-error count (MSNew);  per: class and joined-error count of every
+   Apply in the order they were made (MSApp);  reqs as for `obs`;  locs: the leaf fields of EVERY value *)
+Inductive mobs := MOb (ec ne : N) (per : list (N * N)) (reqs : list name) (locs : list (list oloc)) (intact : bool).
+
 Inductive case :=
+| CMulti (md : mmode) (entries : list (list item * bstr)) (svc : list (name * (N * N))) (unmfail : list N)
+         (jt : list (N * N * (N * bool))) (o : mobs)
 | CRun (md : mode) (a : arg) (pfx : bstr) (svc : list (name * (N * N))) (unmfail : list N)
        (jt : list (N * N * (N * bool))) (o : obs)
 | CJoin (a b r : bstr)        (* path.Join(a, b) = r of the Go library (ties path_join2 and go_join) *)
@@ -222,8 +236,88 @@ Definition check_run (md : mode) (a : arg) (pfx : bstr) svc unmfail jt (o : obs)
     end
   end.
 
+Fixpoint locs_multi (s' : store N) svc (live : bool) (shapes : list (list item)) (frss : list (option (list (fres N N))))
+         (locs : list (list oloc)) : bool :=
+  match shapes, frss, locs with
+  | [], [], [] => true
+  | sh :: sr, fo :: fr, lo :: lr =>
+      match fo with
+      | Some frs => check_locs s' svc live frs (all_locs sh) lo      (* this value was applied *)
+      | None => all_unchanged (all_locs sh) lo                        (* never reached: untouched *)
+      end && locs_multi s' svc live sr fr lr
+  | _, _, _ => false
+  end.
+
+Definition err_pair (frs : list (fres N N)) : N * N :=
+  match reported frs with [] => (0, 0) | errs => (2, N.of_nat (length errs)) end%N.
+
+Definition pair_beq (a b : N * N) : bool := N.eqb (fst a) (fst b) && N.eqb (snd a) (snd b).
+
+(* MSApp: the Applies in the given order, threading the store *)
+Fixpoint apply_in_order jdec unm_ok ans (ps : list (bstr * list pfield)) (order : list nat) (s : store N)
+  : store N * list (nat * list (fres N N)) * list name :=
+  match order with
+  | [] => (s, [], [])
+  | k :: r =>
+    match nth_error ps k with
+    | Some (pfx, pfs) =>
+        let '(s1, frs, rq) := apply jdec unm_ok ans 0%Z pfx s pfs in
+        let '(s2, rest, rq2) := apply_in_order jdec unm_ok ans ps r s1 in
+        (s2, (k, frs) :: rest, rq ++ rq2)
+    | None => apply_in_order jdec unm_ok ans ps r s
+    end
+  end.
+
+Definition result_of (k : nat) (done : list (nat * list (fres N N))) : option (list (fres N N)) :=
+  match List.find (fun '(j, _) => Nat.eqb j k) done with Some (_, frs) => Some frs | None => None end.
+
+Definition check_multi (md : mmode) (entries : list (list item * bstr)) svc unmfail jt (o : mobs) : bool :=
+  let ans := fun n => assoc n svc in
+  let jdec := jlookup jt in
+  let unm_ok := fun (_ : ftype) (v : N) => negb (existsb (N.eqb v) unmfail) in
+  let shapes := map fst entries in
+  let args := map (fun '(sh, pfx) => (AStructPtr sh, pfx)) entries in
+  let nobody := map (fun _ => @None (list (fres N N))) entries in
+  match o with
+  | MOb ec ne per reqs locs intact =>
+    let rejected := N.eqb ec 1 && list_beq bytes_beq reqs []
+                    && locs_multi (ST [] [] [] false 0%Z) [] false shapes nobody locs && intact in
+    match md with
+    | MSNew allow extra =>
+      match new_store_structs jdec unm_ok ans 0%Z allow extra args with
+      | NMReject _ => rejected
+      | NMInitMissing _ => N.eqb ec 3
+      | NMDone init_rq s' frss rq failed =>
+          let n_applied := length frss in
+          let frso := map (fun i => nth_error frss i) (seq 0 (length entries)) in
+          (match failed with
+           | None => N.eqb ec 0
+           | Some k => match nth_error frss k with
+                       | Some frs => pair_beq (ec, ne) (err_pair frs) && N.eqb ec 2
+                       | None => false
+                       end
+           end)
+          && same_set reqs (init_rq ++ rq)
+          && locs_multi s' svc (match failed with None => true | Some _ => false end) shapes frso locs
+          && Bool.eqb intact (forallb (fun frs => intact_model s' frs svc) frss)
+      | NMBadNames => false
+      end
+    | MSApp allow declared order =>
+      match parse_all args with
+      | inl _ => rejected
+      | inr ps =>
+        let '(s', done, rq) := apply_in_order jdec unm_ok ans ps order (initial_store allow declared ans) in
+        list_beq pair_beq per (map (fun '(_, frs) => err_pair frs) done)
+        && list_beq bytes_beq reqs rq
+        && locs_multi s' svc true shapes (map (fun i => result_of i done) (seq 0 (length entries))) locs
+        && Bool.eqb intact (forallb (fun '(_, frs) => intact_model s' frs svc) done)
+      end
+    end
+  end.
+
 Definition check (c : case) : bool :=
   match c with
+  | CMulti md entries svc unmfail jt o => check_multi md entries svc unmfail jt o
   | CRun md a pfx svc unmfail jt o => check_run md a pfx svc unmfail jt o
   | CJoin a b r => bytes_beq (path_join2 a b) r && bytes_beq (go_join [a; b]) r
   | CJoinRow alpha swap a h n codes => join_row_ok alpha swap a h n codes
